@@ -167,6 +167,11 @@ Definition dispatch (cmd : string) (args : list sexp) : option sexp :=
       | Some a, Some idx, Some vsh => Some (enc_res (enc_written (leaves a) vsh) (run_setitem FUEL a idx vsh))
       | _, _, _ => None
       end
+  | "update_", [t; SZ mode; vsh] =>
+      match dec_tree t, dec_list dec_Z vsh with
+      | Some a, Some vsh => Some (enc_res (enc_written (leaves a) vsh) (run_update_ FUEL a mode vsh))
+      | _, _ => None
+      end
   | "transpose", [t; SZ d0; SZ d1] =>
       option_map (fun a => enc_res (enc_arr (leaves a)) (lz_transpose FUEL a d0 d1)) (dec_tree t)
   | "permute", [t; dims] =>
